@@ -13,7 +13,9 @@ open Reflog
 def LastRec (w w' : World) (r : Rec) : Prop :=
   ∃ pre, w'.logHead = some (w.logHead.getD [] ++ pre ++ Reflog.format r)
 
-theorem commitWrite_head0 (H : HashFn) (w : World) (l : Loaded) (id data msg : Bytes) (tz : Int) (ts : List Int) (o : Option Bytes)
+/-- **head0, byte level**: after a successful `commit` the last record of `logs/HEAD` is a `commit` record with the message given
+    whose new id is the commit the branch HEAD names now holds -/
+theorem _root_.C11.world_head0_commit (H : HashFn) (w : World) (l : Loaded) (id data msg : Bytes) (tz : Int) (ts : List Int) (o : Option Bytes)
     (h : (commitWrite H w l id data msg tz ts).2 = .ok o) :
     ∃ r, LastRec w (commitWrite H w l id data msg tz ts).1 r ∧ r.to = some id ∧ r.kind = .commit ∧ r.msg = msg ∧
       (commitWrite H w l id data msg tz ts).1.head = some (Head.render l.ref) ∧
@@ -31,7 +33,8 @@ theorem commitWrite_head0 (H : HashFn) (w : World) (l : Loaded) (id data msg : B
       · simp [setHead, appendLogHead, appendLogBranch, recLine]
       · simp [setHead, appendLogHead, appendLogBranch, aget_aset_self]
 
-theorem resetTo_head0 (H : HashFn) (w : World) (l : Loaded) (s h : Bool) (arg t prev : Bytes) (tz : Int) (ts : List Int) (o : Option Bytes)
+/-- … after a successful `reset` (any mode): a `reset` record whose new id is the target, which the current branch now holds -/
+theorem _root_.C11.world_head0_reset (H : HashFn) (w : World) (l : Loaded) (s h : Bool) (arg t prev : Bytes) (tz : Int) (ts : List Int) (o : Option Bytes)
     (hok : (resetTo H w l s h arg t prev tz ts).2 = .ok o) :
     ∃ r, LastRec w (resetTo H w l s h arg t prev tz ts).1 r ∧ r.to = some t ∧ r.kind = .reset ∧
       (resetTo H w l s h arg t prev tz ts).1.head = w.head ∧
@@ -48,7 +51,8 @@ theorem resetTo_head0 (H : HashFn) (w : World) (l : Loaded) (s h : Bool) (arg t 
       | (simp only [writeEntries_logHead, appendLogBranch_logHead, appendLogHead_logHead, recLine, List.append_nil])
       | (exfalso; simp_all)
 
-theorem switchTo_head0 (H : HashFn) (w : World) (l : Loaded) (n : Bytes) (tz : Int) (ts : List Int) (o : Option Bytes)
+/-- … after a successful `switch`: a `checkout` record whose new id is the commit of the branch HEAD now names -/
+theorem _root_.C11.world_head0_switch (H : HashFn) (w : World) (l : Loaded) (n : Bytes) (tz : Int) (ts : List Int) (o : Option Bytes)
     (hok : (switchTo H w l n tz ts).2 = .ok o) :
     ∃ r id, LastRec w (switchTo H w l n tz ts).1 r ∧ r.to = some id ∧ r.kind = .checkout ∧
       Refs.lookup l.refs n = some id ∧ (commitAt H w id).isSome = true ∧
@@ -73,7 +77,8 @@ theorem switchTo_head0 (H : HashFn) (w : World) (l : Loaded) (n : Bytes) (tz : I
         ⟨[], ?_⟩, rfl, rfl, hl2.1, hl2.2, rfl, rfl⟩
       simp [setHead, appendLogHead, recLine]
 
-theorem switchCreate_head0 (w : World) (l : Loaded) (create : Bytes) (tz : Int) (ts : List Int) (o : Option Bytes)
+/-- … after a successful `switch -c`: a `checkout` record whose new id is HEAD's commit, which the new branch holds -/
+theorem _root_.C11.world_head0_switch_create (w : World) (l : Loaded) (create : Bytes) (tz : Int) (ts : List Int) (o : Option Bytes)
     (hok : (switchCreate w l create tz ts).2 = .ok o) :
     ∃ r id c, LastRec w (switchCreate w l create tz ts).1 r ∧ r.to = some id ∧ r.kind = .checkout ∧ l.headCommit = some (id, c) ∧
       (switchCreate w l create tz ts).1.head = some (Head.render create) ∧
@@ -97,7 +102,8 @@ theorem switchCreate_head0 (w : World) (l : Loaded) (create : Bytes) (tz : Int) 
         · simp [setHead, appendLogHead, appendLogBranch, recLine]
         · simp [setHead, appendLogHead, appendLogBranch, aget_aset_self]
 
-theorem branchRename_head0 (w : World) (l : Loaded) (ren : Bytes) (tz : Int) (ts : List Int) (o : Option Bytes)
+/-- … after a successful `branch -r`: two records, the last one with HEAD's commit as its new id, held by the new name -/
+theorem _root_.C11.world_head0_rename (w : World) (l : Loaded) (ren : Bytes) (tz : Int) (ts : List Int) (o : Option Bytes)
     (hok : (branchRename w l ren tz ts).2 = .ok o) :
     ∃ r id c, LastRec w (branchRename w l ren tz ts).1 r ∧ r.to = some id ∧ r.kind = .branch ∧ l.headCommit = some (id, c) ∧
       (branchRename w l ren tz ts).1.head = some (Head.render ren) ∧
@@ -119,19 +125,3 @@ theorem branchRename_head0 (w : World) (l : Loaded) (ren : Bytes) (tz : Int) (ts
       simp [setHead, appendLogHead, appendLogBranch, recLine, List.append_assoc]
 
 end W
-
-namespace C11
-
-/-- **head0, byte level**: after a successful `commit` the last record of `logs/HEAD` is a `commit` record with the message given
-    whose new id is the commit the branch HEAD names now holds -/
-theorem world_head0_commit := @W.commitWrite_head0
-/-- … after a successful `reset` (any mode): a `reset` record whose new id is the target, which the current branch now holds -/
-theorem world_head0_reset := @W.resetTo_head0
-/-- … after a successful `switch`: a `checkout` record whose new id is the commit of the branch HEAD now names -/
-theorem world_head0_switch := @W.switchTo_head0
-/-- … after a successful `switch -c`: a `checkout` record whose new id is HEAD's commit, which the new branch holds -/
-theorem world_head0_switch_create := @W.switchCreate_head0
-/-- … after a successful `branch -r`: two records, the last one with HEAD's commit as its new id, held by the new name -/
-theorem world_head0_rename := @W.branchRename_head0
-
-end C11
